@@ -758,6 +758,9 @@ class Program:
             if key not in self._shared_factory:
                 self._shared_factory[key] = factory(cache=MemoryCache)
             factory = self._shared_factory[key]
+        if n.get("family_factory") and not n.get("abstract") and ck in ("default", "recording", "nocache"):
+            # a concrete member of a family whose shared factory is abstract: source = abstractdataset(...); source(abstract=False)(fn)
+            factory = (abstractdataset.nocache if ck == "nocache" else abstractdataset)(abstract=False)
         if n.get("wraps"):
             # the decorator applied to an EXPRESSION instead of a function: dataset(WithOptions(X, P0), options=P, ...)
             fn = self.ref(n["wraps"])
